@@ -10,14 +10,30 @@ META = {
     "text": ("Coq theorems about the reference interpreter Engine/Sld.v (ISO 7.7/7.8 control: success continuations, cut barriers, "
              "call/N opaque to cut, if-then-else, \\+, catch/throw): solve_fuel_mono (a completed run is independent of the fuel, so "
              "out-of-fuel is excluded by statement) and the ISO control laws as equations on ordered answer sequences (conjunction, "
-             "disjunction, if-then-else, negation, cut, call/1 opacity, once). The WAM compiler and engine are tied to the reference "
+             "disjunction, if-then-else, negation, cut, call/1 opacity, once). On the pure fragment (true, fail, conjunction, disjunction, =/2, "
+             "user predicate calls; no cut/exceptions) the interpreter is proved EQUAL, in both directions, to an inductive fuel-free and "
+             "continuation-free derivation semantics answers_rel (Engine/SldRel.v: ordered answer LISTS, so order and multiplicity "
+             "are part of the statement): sld_sound, sld_complete, sld_sound_complete, exec_complete_any_continuation (inside any context), "
+             "answers_rel_functional; derived forms over a pure condition: ite_pure_cond, once_pure, naf_pure (first derivable answer / none); "
+             "call/1 of a pure goal: call_body_rel (exact, relative to the relation) and call_body_equiv_partial / call_body_variants_partial "
+             "(G completes => call(G) completes with the same answers up to the renaming v->v+1 of fresh variables, i.e. variants). "
+             "The WAM compiler and engine are tied to the reference "
              "by correspondence: random programs (cuts at every position, all variable sharing patterns, indexing shapes, arities up to 8) "
              "are consulted and their queries' ordered answers + exception compared with the model evaluated inside coqc."),
     "note": ("Trusted: Coq kernel + vm_compute; the reference interpreter itself as the rendering of ISO resolution (its unification is a "
              "textbook substitution-based one with occurs check: runs that would create a cyclic binding are dropped and counted); the Python "
              "generator/serialisers (gen/sld_common.py); the harness vrun. The compiler/engine (codegen.rs, debray_allocator.rs, "
-             "machine_state.rs ...) is not modelled: differential half only. Error contexts are not compared."),
-    "technique": "Coq proof (solve_fuel_mono + ISO control laws) over a reference interpreter + differential correspondence evaluated in Coq",
+             "machine_state.rs ...) is not modelled: differential half only. Error contexts are not compared. "
+             "The derivation relation answers_rel shares with the interpreter its unification function (unify ufuel: an aborting unification "
+             "leaves no derivation) and its renaming-apart convention (fresh-name counter threaded through the states), which is why the "
+             "agreement theorems are exact equalities; it shares no fuel, continuation, signal or cut barrier. Fragment of the agreement "
+             "theorems: pure goals only (no cut, if-then-else, \\+, call/N, arithmetic, type tests, exceptions inside the goals related; "
+             "ite_pure_cond/once_pure/naf_pure allow arbitrary Then/Else/continuations around a pure condition). NOT proved "
+             "(call_body_equiv_partial): the converse direction call(G) completes => G completes, and call(G) inside a clause body "
+             "(non-empty substitution: needs invariance of unify under instantiating the goal by the current substitution); "
+             "no agreement theorem for programs with cut or exceptions (only the control-law equations). SldRelProofs.v sets "
+             "`Strategy opaque [ufuel]` (conversion hint only, no axiom)."),
+    "technique": "Coq proof (solve_fuel_mono + ISO control laws + sld_sound_complete against an inductive derivation relation on the pure fragment) over a reference interpreter + differential correspondence evaluated in Coq",
     "design_ref": "DESIGN.md section 8, C07",
     "coq_targets": ["C07/Props.vo"],
     "coq_dirs": ["Engine", "C07"],
